@@ -1,4 +1,5 @@
 CONSTANT Instance = "vararith"
+CONSTANT NL = 2
 CONSTANT Disabled = {}
 CONSTANT Mutant = "step_index_zero"
 INIT Init
